@@ -6,8 +6,8 @@ pub assume_specification<T: Clone + core::marker::Destruct> [<[T]>::clone_from_s
 pub assume_specification<T: Clone> [<[T]>::to_vec] (s: &[T]) -> (r: Vec<T>) ensures r@ == s@;
 impl Stack {
     /// the stack pointer addresses an existing slot
-    pub closed spec fn wf(&self) -> bool { self.sp < self.stack@.len() && self.stack@.len() <= usize::MAX }
-    pub closed spec fn can_grow(&self) -> bool { self.stack@.len() * 2 <= usize::MAX }
+    pub open spec fn wf(&self) -> bool { self.sp_spec() < self.cells().len() && self.cells().len() <= usize::MAX }
+    pub open spec fn can_grow(&self) -> bool { self.cells().len() * 2 <= usize::MAX }
     pub closed spec fn sp_spec(&self) -> usize { self.sp }
     pub closed spec fn cells(&self) -> Seq<VCell> { self.stack@ }
     /// the live part: slots 0..=sp
@@ -55,6 +55,7 @@ UNITS = [{
             'ensures': [
                 (S5, 'final(self).wf() && final(self).sp_spec() == old(self).sp_spec() + 1 && final(self).cells().len() >= old(self).cells().len()'),
                 (S5, 'final(self).cells().subrange(0, old(self).sp_spec() + 1) == old(self).live()'),
+                (S5, '<T as vstd::std_specs::convert::IntoSpec<VCell>>::obeys_into_spec() ==> final(self).cells()[final(self).sp_spec() as int] == <T as vstd::std_specs::convert::IntoSpec<VCell>>::into_spec(vcell)'),
             ],
             'decreases': '(if old(self).sp_spec() + 1 < old(self).cells().len() { 0int } else { 1int })',
         },
